@@ -105,7 +105,9 @@ def machine(ctx, quick):
     import json, os
     from ..common import mktempdir, run_driver_parallel, EXTREME_EMBS
     rng = ctx.rng
-    for cst in ([dict(MaxC=2, MaxPts=2)] if quick else [dict(MaxC=2, MaxPts=2), dict(MaxC=3, MaxPts=2)]):      # (MaxC=2, MaxPts=3 did not finish within 50 minutes: triples of 3-point diagrams)
+    # (larger constants are out of reach: MaxC=3 overflows TLC's 32-bit integers in the exact kernel values, MaxC=2 with MaxPts=3 did not finish
+    #  within 50 minutes -- triples of 3-point diagrams; the thorough tier deepens the replayed pairs and the sessions instead)
+    for cst in [dict(MaxC=2, MaxPts=2)]:
         r = tlc.run_tlc("HeatKernel", workers=16, constants=cst, invariants=HEAT_INVS, properties=["InputsUntouched"], heap="8g", timeout=14400)
         ctx.model("HeatKernel (heat as a state machine, exact at sigma = 1/(8 ln 2)) %s" % cst, r, constants=cst)
     r = tlc.run_tlc("HeatKernel", workers=4, spec="FairSpec", constants=dict(MaxC=1, MaxPts=2), properties=["Termination"], heap="3g")
